@@ -1,6 +1,7 @@
 package suites
 
 import (
+	"fmt"
 	"math/rand"
 	"strconv"
 	"strings"
@@ -517,20 +518,53 @@ func init() {
 		}
 		return Result{Obs: obs, Oracle: oracle, Sig: sig}
 	}
-	// Finding handler-injected-error-self-blocks (NOT in conf/C05.json until it is repaired or
-	// recorded): SASL configured, a user handler that takes 3 ms per PRIVMSG, and the whole
-	// history written in one burst, so that the receive queue (25) is full when the handler of
-	// the failing SASL reply queues its ERROR. The client must still disconnect promptly.
+	// Finding handler-injected-error-self-blocks. Three internal handlers (handleSASL,
+	// handleSASLError, the STS block of handleCAP) queue an ERROR with Client.receive from the
+	// goroutine that drains the receive queue. When the 25 slots are full at that moment the
+	// handler waits on itself. Two ways to get there, both written to the socket in one burst:
+	//   burst-sasl: SASL configured, an application handler that takes 3 ms per PRIVMSG, a
+	//               failing SASL reply followed by 30-60 more lines;
+	//   burst-sts : server input only, flood protection on (the default): eight unknown CTCP
+	//               queries are answered inside execLoop and the rate limiter sleeps there
+	//               while the burst (CAP ACK of an invalid sts policy, 40 MOTD lines) fills the queue.
+	// Verdicts: the client answers the final PING or Connect returns an error ("ended");
+	//   promptly                       -> nothing to report (this is what a repaired tree does);
+	//   after the 30 s timeout of receive (the ERROR is dropped) -> class `stall`, the recorded finding;
+	//   never (no PONG, no return, and NO PROGRESS: queue lengths and written lines unchanged
+	//   for 45 s, at least 50 s after the burst) -> class `stall-permanent`.
+	stallSum := func(route, nick string, evs []Ev) string {
+		h := uint32(2166136261)
+		for i := 0; i < len(route+"/"+nick); i++ {
+			h = (h ^ uint32((route + "/" + nick)[i])) * 16777619
+		}
+		for _, e := range evs {
+			for _, a := range e.args() {
+				for i := 0; i < len(a); i++ {
+					h = (h ^ uint32(a[i])) * 16777619
+				}
+				h = (h ^ 0xff) * 16777619
+			}
+		}
+		return "u" + strconv.FormatUint(uint64(h), 16)
+	}
 	stallDirect := func(c Case) Result {
-		_, nick, user, evs, ok := DecodeHistory(c)
-		if !ok {
+		route, nick, user, evs, ok := DecodeHistory(c)
+		// the history is tied to a checksum (carried in the user name): a run takes 30-50 s, so
+		// the byte-wise shrinker of bin/check must not explore variants of it
+		if !ok || user != stallSum(route, nick, evs) || (route != "burst-sasl" && route != "burst-sts") {
 			return Result{Obs: "?bad-args", Sig: ""}
 		}
 		cfg := drive.BaseConfig()
 		cfg.Nick, cfg.User = nick, user
-		cfg.SASL = &girc.SASLPlain{User: "acct", Pass: "secret"}
+		if route == "burst-sasl" {
+			cfg.SASL = &girc.SASLPlain{User: "acct", Pass: "secret"}
+		} else {
+			cfg.AllowFlood = false
+		}
 		ss := drive.Start(cfg)
-		ss.C.Handlers.Add(girc.PRIVMSG, func(c *girc.Client, e girc.Event) { time.Sleep(3 * time.Millisecond) })
+		if route == "burst-sasl" {
+			ss.C.Handlers.Add(girc.PRIVMSG, func(c *girc.Client, e girc.Event) { time.Sleep(3 * time.Millisecond) })
+		}
 		var sb strings.Builder
 		for _, e := range evs {
 			line, lok := e.Line()
@@ -539,42 +573,82 @@ func init() {
 			}
 			sb.WriteString(line + "\r\n")
 		}
+		const tok = SentinelPrefix + "stall"
+		sb.WriteString("PING " + tok + "\r\n")
+		mark := ss.Mark()
 		go ss.Peer.Write([]byte(sb.String()))
-		select {
-		case err := <-ss.Done:
-			ss.Done <- err
-			ss.Stop()
-			if err == nil {
-				return Result{Obs: "disconnected-nil", Oracle: "liveness: Connect returned without an error", Sig: "burst/nil"}
+		start := time.Now()
+		lastProgress := start
+		lastRx, lastTx := ss.C.VerifQueues()
+		lastLines := mark
+		verdict := func(how string) Result {
+			d := time.Since(start)
+			if d > 10*time.Second {
+				return Result{Obs: "ended", Sig: route + "/" + how + "-late",
+					Oracle: fmt.Sprintf("stall: the client %s only %d s after the burst: a handler queued its ERROR on the full receive queue that its own goroutine drains, processing stood still until the 30 s timeout of Client.receive, and the ERROR was dropped", how, int(d.Seconds()))}
 			}
-			return Result{Obs: "disconnected", Sig: "burst/disconnected"}
-		case <-time.After(12 * time.Second):
-			return Result{Obs: "STALLED", Oracle: "stall: 12 s after a failed SASL exchange the client has neither disconnected nor moved on (the handler blocks on its own receive queue; the queued ERROR is dropped after 30 s)", Sig: "burst/stalled"}
+			return Result{Obs: "ended", Sig: route + "/" + how}
+		}
+		for {
+			select {
+			case err := <-ss.Done:
+				if err == nil {
+					return Result{Obs: "disconnected-nil", Oracle: "liveness: Connect returned without an error", Sig: route + "/nil"}
+				}
+				return verdict("disconnected")
+			default:
+			}
+			lines := ss.Since(mark)
+			for _, l := range lines {
+				if l == "PONG "+tok+"\r\n" {
+					return verdict("answered the PING")
+				}
+			}
+			rx, tx := ss.C.VerifQueues()
+			if rx != lastRx || tx != lastTx || mark+len(lines) != lastLines {
+				lastRx, lastTx, lastLines = rx, tx, mark+len(lines)
+				lastProgress = time.Now()
+			}
+			if (time.Since(start) >= 50*time.Second && time.Since(lastProgress) >= 45*time.Second) || time.Since(start) >= 180*time.Second {
+				return Result{Obs: "HUNG", Sig: route + "/hung",
+					Oracle: fmt.Sprintf("stall-permanent: %d s after the burst the client has neither answered the PING nor returned from Connect, and nothing has moved for %d s (receive queue %d/25, send queue %d): the event loop waits for ever on its own queue",
+						int(time.Since(start).Seconds()), int(time.Since(lastProgress).Seconds()), rx, tx)}
+			}
+			time.Sleep(5 * time.Millisecond)
 		}
 	}
 	Register(&Suite{
 		Name: "state.stall",
 		Prop: []string{"C05"},
 		Gen: func(r *rand.Rand) Case {
-			chat := func() Ev {
-				return Ev{HasSrc: true, Name: Pick(r, "alice", "bob", "zed"), Ident: "u", Host: "h", Cmd: "PRIVMSG", Params: []string{"#chan", "hello there"}}
+			var evs []Ev
+			route := Pick(r, "burst-sasl", "burst-sts")
+			if route == "burst-sasl" {
+				chat := func() Ev {
+					return Ev{HasSrc: true, Name: Pick(r, "alice", "bob", "zed"), Ident: "u", Host: "h", Cmd: "PRIVMSG", Params: []string{"#chan", "hello there"}}
+				}
+				evs = joinedPrefix()
+				for i := 2 + r.Intn(8); i > 0; i-- {
+					evs = append(evs, chat())
+				}
+				if r.Intn(2) == 0 {
+					evs = append(evs, Ev{HasSrc: true, Name: "srv", Cmd: Pick(r, "902", "904", "905", "906", "908"), Params: []string{"me", "SASL authentication failed"}})
+				} else {
+					evs = append(evs, Ev{Cmd: "AUTHENTICATE", Params: []string{Pick(r, "PLAIN", "*", "x")}})
+				}
+				for i := 30 + r.Intn(30); i > 0; i-- {
+					evs = append(evs, chat())
+				}
+			} else {
+				for i := 0; i < 8; i++ {
+					evs = append(evs, Ev{HasSrc: true, Name: "x", Ident: "y", Host: "z", Cmd: "PRIVMSG", Params: []string{"me", "\x01" + Pick(r, "FOO", "BAR", "CLIENTINFO") + "\x01"}})
+				}
+				evs = append(evs, Ev{HasSrc: true, Name: "srv", Cmd: "CAP", Params: []string{"*", "ACK", Pick(r, "sts", "sts multi-prefix", "sts=duration=10")}})
+				for i := 0; i < 40+r.Intn(10); i++ {
+					evs = append(evs, Ev{HasSrc: true, Name: "srv", Cmd: "372", Params: []string{"me", "- filler line " + strconv.Itoa(i)}})
+				}
 			}
-			evs := joinedPrefix()
-			for i := 2 + r.Intn(8); i > 0; i-- {
-				evs = append(evs, chat())
-			}
-			switch r.Intn(3) {
-			case 0:
-				evs = append(evs, Ev{HasSrc: true, Name: "srv", Cmd: Pick(r, "902", "904", "905", "906", "908"), Params: []string{"me", "SASL authentication failed"}})
-			case 1:
-				evs = append(evs, Ev{Cmd: "AUTHENTICATE", Params: []string{Pick(r, "PLAIN", "*", "x")}})
-			default:
-				evs = append(evs, Ev{HasSrc: true, Name: "srv", Cmd: "904", Params: []string{"me", "failed"}}, chat(), Ev{HasSrc: true, Name: "srv", Cmd: "906", Params: []string{"me", "aborted"}})
-			}
-			for i := 30 + r.Intn(30); i > 0; i-- {
-				evs = append(evs, chat())
-			}
-			return EncodeHistory("burst-sasl", "me", "user", evs)
+			return EncodeHistory(route, "me", stallSum(route, "me", evs), evs)
 		},
 		Run: func(c Case) Result { return Isolated("state.stall", c, stallDirect) },
 	})
